@@ -869,20 +869,54 @@ def _snapshot(x):
     return np.array(x.samples if isinstance(x, Samples) else x, dtype=float, copy=True)     # (lists, Fractions -> float)
 
 
+def _ws_input(ws, key, obj):
+    """meta["inplace"]: the caller keeps ONE array object per role and input form and overwrites its contents between
+    the calls (x -= step*grad style loops): the new values are copied INTO the object used by the earlier calls"""
+    from cuqi.samples import Samples
+    if ws is None:
+        return obj
+    old = ws.get(key)
+    a_new = obj.samples if isinstance(obj, Samples) else obj
+    if old is not None and type(old) is type(obj):
+        a_old = old.samples if isinstance(old, Samples) else old
+        if isinstance(a_old, np.ndarray) and np.shape(a_old) == np.shape(a_new):
+            np.copyto(a_old, np.asarray(a_new))
+            return old
+    ws[key] = obj
+    return obj
+
+
 def _replay_history(cuqi, model, meta, dgs, rgs):
     """meta["history"]: earlier calls made on the SAME model object (same model description, other inputs): they are
-    re-made, results ignored, before the call under test -- a model object must not remember anything between calls"""
+    re-made before the call under test -- a model object must not remember anything between calls.  Returns the workspace
+    of caller-owned arrays (None unless meta["inplace"]) and the earlier outputs with their values at the time."""
+    ws = {} if meta.get("inplace") else None
+    kept = []
     for h in meta.get("history", []):
         try:
             if h["op"] == "forward":
-                x = mk_input(cuqi, h["form"], [ufs(c) for c in h["vals"]], dgs, geom_object_for_copy(cuqi, dgs), model.domain_geometry)
-                model.forward(x, is_par=h["flag"])
+                x = _ws_input(ws, ("x", h["form"]), mk_input(cuqi, h["form"], [ufs(c) for c in h["vals"]], dgs, geom_object_for_copy(cuqi, dgs), model.domain_geometry))
+                out = model.forward(x, is_par=h["flag"])
             else:
-                direction = mk_ginput(cuqi, h["dform"], ufs(h["d"]), rgs, geom_object_for_copy(cuqi, rgs), model.range_geometry)
-                wrt = mk_ginput(cuqi, h["wform"], ufs(h["w"]), dgs, geom_object_for_copy(cuqi, dgs), model.domain_geometry)
-                model.gradient(direction, wrt, is_direction_par=h["dform"].split("=")[0] != "fun", is_wrt_par=h["wform"].split("=")[0] != "fun")
+                direction = _ws_input(ws, ("d", h["dform"]), mk_ginput(cuqi, h["dform"], ufs(h["d"]), rgs, geom_object_for_copy(cuqi, rgs), model.range_geometry))
+                wrt = _ws_input(ws, ("w", h["wform"]), mk_ginput(cuqi, h["wform"], ufs(h["w"]), dgs, geom_object_for_copy(cuqi, dgs), model.domain_geometry))
+                out = model.gradient(direction, wrt, is_direction_par=h["dform"].split("=")[0] != "fun", is_wrt_par=h["wform"].split("=")[0] != "fun")
+            kept.append((out, _snapshot(out)))
         except Exception:
             pass
+    return ws, kept
+
+
+def _earlier_outputs_changed(kept):
+    """keep-alive re-comparison: results handed out by earlier calls must not change when the model is used again or the
+    caller overwrites its own input arrays"""
+    for out, snap in kept:
+        try:
+            if not np.array_equal(_snapshot(out), snap):
+                return True
+        except Exception:
+            return True
+    return False
 
 
 def tol_cell(meta):
@@ -906,9 +940,9 @@ def run_forward_case(cuqi, meta):
     model, raw = build_model(cuqi, meta, dg_obj, rg_obj)
     vals = [ufs(c) for c in meta["vals"]]
     form, flag = meta["form"], meta["flag"]
-    _replay_history(cuqi, model, meta, dgs, rgs)
+    ws, kept = _replay_history(cuqi, model, meta, dgs, rgs)
     x = cast_input(cuqi, mk_input(cuqi, form, vals, dgs, geom_object_for_copy(cuqi, dgs), model.domain_geometry), meta.get("dt"))
-    x = odd_flag(x, meta.get("ipk"))
+    x = _ws_input(ws, ("x", form), odd_flag(x, meta.get("ipk")))
     before = _snapshot(x)
     try:
         if meta.get("kw"):      # the input bound by keyword
@@ -921,6 +955,8 @@ def run_forward_case(cuqi, meta):
         obs = ("err", exc_class(e), repr(e)[:200])
     if not np.array_equal(before, _snapshot(x)):
         obs = ("err", "other:InputMutated", "the input array was modified in place")
+    elif _earlier_outputs_changed(kept):
+        obs = ("err", "other:EarlierOutputChanged", "a result returned by an earlier call changed afterwards")
     # ---- independent expectation
     A = [[Fraction(a) for a in row] for row in meta["A"]]
     cs, b = ufs(meta["cs"]), ufs(meta["b"])
@@ -1032,7 +1068,8 @@ def run_gradient_case(cuqi, meta):
     direction, wrt = odd_flag(direction, meta.get("dipk")), odd_flag(wrt, meta.get("wipk"))
     dpar = dform.split("=")[0] not in ("fun",) if "dpar" not in meta else meta["dpar"]
     wpar = wform.split("=")[0] not in ("fun",) if "wpar" not in meta else meta["wpar"]
-    _replay_history(cuqi, model, meta, dgs, rgs)
+    ws, kept = _replay_history(cuqi, model, meta, dgs, rgs)
+    direction, wrt = _ws_input(ws, ("d", dform), direction), _ws_input(ws, ("w", wform), wrt)
     before = (_snapshot(direction), _snapshot(wrt))
     try:
         out = model.gradient(direction, wrt, is_direction_par=dpar, is_wrt_par=wpar)
@@ -1043,6 +1080,8 @@ def run_gradient_case(cuqi, meta):
         obs = ("err", exc_class(e), repr(e)[:200])
     if not (np.array_equal(before[0], _snapshot(direction)) and np.array_equal(before[1], _snapshot(wrt))):
         obs = ("err", "other:InputMutated", "direction or wrt was modified in place")
+    elif _earlier_outputs_changed(kept):
+        obs = ("err", "other:EarlierOutputChanged", "a result returned by an earlier call changed afterwards")
     # ---- independent expectation: transposed exact Jacobian of p -> fun2par_r(F(par2fun_d(p))) at wrt_par
     A = [[Fraction(a) for a in row] for row in meta["A"]]
     cs, b = ufs(meta["cs"]), ufs(meta["b"])
@@ -1852,12 +1891,27 @@ def run(ctx):
                   ("jac", Geo(kind="step", nodes=4, steps=2, proj="max", grad=True), Geo(kind="discrete", n=3), False),
                   ("linmat", Geo(kind="cont1d", n=3), Geo(kind="cont1d", n=3), False),
                   ("dir", Geo(kind="image", r=2, c=2, order="F"), Geo(kind="cont1d", n=2), False)]
-    for mk, dg, rg, with_op in hist_specs:
+    # ... and the same with CALLER-OWNED arrays reused across the calls and overwritten in place between them (descent loops
+    # `x -= step*model.gradient(r, x)`): one array object per role and form; identity-like geometries hand that very object to
+    # the callables, so anything a model keeps by reference from an earlier call silently follows the caller's updates
+    plan_a = ["fwd:par", "grad:par,par", "fwd:arrfun", "fwd:bad", "grad:arrpar,arrfun", "fwd:samples", "fwd:par"]
+    plan_b = ["grad:par,par", "grad:par,par", "fwd:par", "grad:par,par", "fwd:par", "grad:arrpar,arrpar", "grad:arrpar,arrpar", "fwd:arrpar", "fwd:arrpar",
+              "grad:fun,arrfun", "grad:fun,arrfun", "fwd:samples", "fwd:samples", "fwd:arrfun", "fwd:arrfun"]
+    inplace_specs = [("jac", Geo(kind="cont1d", n=3), Geo(kind="cont1d", n=4), False), ("jac", Geo(kind="default1d", n=3), Geo(kind="discrete", n=2), False),
+                     ("jac", Geo(kind="image", r=2, c=2, order="C"), Geo(kind="cont1d", n=3), False), ("jac", Geo(kind="discrete", n=2), Geo(kind="default1d", n=3), False),
+                     ("pde_jw", Geo(kind="discrete", n=3), Geo(kind="cont1d", n=2), True), ("dir", Geo(kind="cont1d", n=3), Geo(kind="cont1d", n=2), False),
+                     ("linfun", Geo(kind="cont1d", n=2), Geo(kind="cont1d", n=3), False), ("pde_gw", Geo(kind="cont1d", n=3), Geo(kind="discrete", n=3), True),
+                     ("jac", Geo(kind="mapped", n=3, cs=fs(aff_s), ics=fs(iaff_s), grad=True), Geo(kind="cont1d", n=2), False),
+                     ("jac", Geo(kind="step", nodes=4, steps=2, proj="max", grad=True), Geo(kind="cont1d", n=2), False)]
+    for mk, dg, rg, with_op, plan, inplace in [sp + (plan_a, False) for sp in hist_specs] + [sp + (plan_b, True) for sp in hist_specs + inplace_specs]:
         mm = rand_model(rng, mk, dg.nfun, rg.nfun)
+        if mk in ("jac", "pde_jw", "dir", "pde_gw") and ufs(mm["cs"])[2:] in ([], [0]):
+            mm["cs"] = fs([0, 1, 1])          # a genuinely non-linear map: the Jacobian depends on the point
         if with_op:
             mm["pde_op"] = rand_unit_triangular(rng, rg.nfun)
+        if inplace:
+            mm["inplace"] = True
         history = []
-        plan = ["fwd:par", "grad:par,par", "fwd:arrfun", "fwd:bad", "grad:arrpar,arrfun", "fwd:samples", "fwd:par"]
         for step in plan:
             kind, forms = step.split(":")
             if kind == "fwd":
